@@ -195,3 +195,55 @@ def keyfp(v):
         d["co_consts"] = [keyfp(c) for c in v.co_consts]
         return ["C", d]
     return fp(v)
+
+
+def sem_fp(code):
+    """Meaning fingerprint of a code object (used only to identify NESTED code constants "up to
+    serialisation artefacts" when two readings are compared; the top-level comparison is done by
+    TLC, Normalize!Sem): instruction sequence with resolved operands, jump targets as instruction
+    indices, lines, and the header fields that matter."""
+    import dis as _dis
+
+    b = code.co_code
+    ext = _dis.EXTENDED_ARG
+    firsts = {}
+    start = None
+    idx_of_off = {}
+    n = 0
+    for i in range(0, len(b), 2):
+        if start is None:
+            start = i
+        if b[i] != ext:
+            firsts[i] = start
+            idx_of_off[start] = n
+            n += 1
+            start = None
+    out = []
+    cells = code.co_cellvars + code.co_freevars
+    for ins in _dis.get_instructions(code):
+        if ins.opcode == ext:
+            continue
+        op = ins.opcode
+        if op in _dis.hasjabs or op in _dis.hasjrel:
+            val = ["j", idx_of_off.get(ins.argval, -1), op in _dis.hasjrel]
+        elif op in _dis.hasconst:
+            v = code.co_consts[ins.arg]
+            val = ["C", sem_fp(v)] if isinstance(v, types.CodeType) else fp(v)
+        elif op in _dis.hasname:
+            val = ["n", code.co_names[ins.arg]]
+        elif op in _dis.haslocal:
+            val = ["v", code.co_varnames[ins.arg]]
+        elif op in _dis.hasfree:
+            val = ["d", cells[ins.arg], ins.arg < len(code.co_cellvars)]
+        elif op >= _dis.HAVE_ARGUMENT:
+            val = ["i", ins.arg]
+        else:
+            val = 0
+        out.append([ins.opname, val, addr2line(code, firsts[ins.offset])])
+    fl = code.co_flags & ~0x10 & ~0x40
+    fnlike = bool(fl & 1 and fl & 2)
+    npar = code.co_argcount + code.co_kwonlyargcount + bool(fl & 4) + bool(fl & 8)
+    doc = code.co_consts[0] if fnlike and code.co_consts and type(code.co_consts[0]) is str else None
+    return [out, fl, code.co_argcount, code.co_posonlyargcount if V >= (3, 8) else 0, code.co_kwonlyargcount,
+            list(code.co_varnames[:npar]) if fnlike else [], list(code.co_freevars), code.co_name, code.co_filename,
+            code.co_firstlineno, code.co_stacksize, fp(doc)]
